@@ -524,4 +524,5 @@ func runC20(e *Engine, r *Report) {
 	ruleShardRouting(e, r)
 	ruleBootstrapGate(e, r)
 	ruleCreatedFileSync(e, r, 1, "tools")
+	borrow(e, r, "C16", "ERR-refusal")
 }
